@@ -26,30 +26,43 @@ func vhPut32(b []byte, off int, v uint32) { binary.LittleEndian.PutUint32(b[off:
 func vhPut16(b []byte, off int, v uint16) { binary.LittleEndian.PutUint16(b[off:], v) }
 func vhGet32(b []byte, off int) uint32    { return binary.LittleEndian.Uint32(b[off:]) }
 
-// a well-formed single-part cabinet with nf folders and d data bytes, either
-// unsigned (no reserve area) or carrying an s-byte signature. Every byte not
-// fixed by the format is symbolic.
-func vhCab(signed bool, nf, d, s int) (x []byte, foldersAt, dataAt int) {
+// a well-formed single-part cabinet with nf folders and d data bytes. kind:
+// 0 = unsigned, no reserve area; 1 = carrying an s-byte signature;
+// 2 = unsigned with a pre-reserved, zero-filled signature area that is `pad`
+// bytes larger than the signature header (as some build tools emit).
+// Every byte not fixed by the format is symbolic.
+func vhCabKind(kind, nf, d, s, pad int) (x []byte, foldersAt, dataAt int) {
 	hdr := 36
-	if signed {
+	if kind != 0 {
 		hdr += 4 + 20
+	}
+	if kind == 2 {
+		hdr += pad
 	}
 	n := hdr + 8*nf + d
 	total := n
-	if signed {
+	if kind == 1 {
 		n += s
 	}
 	x = vhBytes("cab", n)
 	vhAssume(vhGet32(x, 0) == Magic)
-	vhAssume(vhGet32(x, 8) == uint32(total))          // cbCabinet
-	vhAssume(vhGet32(x, 16) == uint32(hdr+8*nf))      // coffFiles
+	vhAssume(vhGet32(x, 8) == uint32(total))     // cbCabinet
+	vhAssume(vhGet32(x, 16) == uint32(hdr+8*nf)) // coffFiles
 	vhAssume(binary.LittleEndian.Uint16(x[26:]) == uint16(nf))
 	flags := uint16(0)
-	if signed {
+	switch kind {
+	case 1:
 		flags = uint16(FlagReservePresent)
 		vhAssume(binary.LittleEndian.Uint16(x[36:]) == 20 && x[38] == 0 && x[39] == 0) // cbCFHeader, cbCFFolder, cbCFData
 		vhAssume(vhGet32(x, 44) == uint32(total))                                      // signature header: cabinet size
 		vhAssume(vhGet32(x, 48) == uint32(s))                                          // signature size
+	case 2:
+		flags = uint16(FlagReservePresent)
+		vhAssume(binary.LittleEndian.Uint16(x[36:]) == uint16(20+pad) && x[38] == 0 && x[39] == 0)
+		vhAssume(vhGet32(x, 44) == 0) // no signature yet
+		for i := 0; i < pad; i++ {
+			vhAssume(x[60+i] == 0)
+		}
 	}
 	vhAssume(binary.LittleEndian.Uint16(x[30:]) == flags)
 	foldersAt = hdr
@@ -58,6 +71,13 @@ func vhCab(signed bool, nf, d, s int) (x []byte, foldersAt, dataAt int) {
 		vhAssume(vhGet32(x, foldersAt+8*i) == uint32(dataAt)) // coffCabStart of each folder
 	}
 	return
+}
+
+func vhCab(signed bool, nf, d, s int) (x []byte, foldersAt, dataAt int) {
+	if signed {
+		return vhCabKind(1, nf, d, s, 0)
+	}
+	return vhCabKind(0, nf, d, s, 0)
 }
 
 func vhPad8(sig []byte) []byte {
@@ -71,14 +91,18 @@ func vhPad8(sig []byte) []byte {
 // blob; sign, parse the result, sign again.
 func vhCabScenario(prop string) {
 	vhMaxLen(200)
-	signed := vhBool("already-signed")
+	kind := vhConcretize(vhInt("cab-kind", 0, 2), 4) // unsigned / signed / pre-reserved
+	signed := kind == 1
 	nf := vhConcretize(vhInt("folders", 0, 1), 2)
 	d := vhConcretize(vhInt("datalen", 0, 3), 4)
-	s := 0
+	s, pad := 0, 0
 	if signed {
 		s = 8
 	}
-	x, foldersAt, dataAt := vhCab(signed, nf, d, s)
+	if kind == 2 {
+		pad = vhConcretize(vhInt("reserve-padding", 1, 2), 4)
+	}
+	x, foldersAt, dataAt := vhCabKind(kind, nf, d, s, pad)
 	dg, err := Digest(bytes.NewReader(x), crypto.SHA256)
 	if prop == "C01" {
 		vhAssert(err == nil, "well-formed-cab-accepted-for-signing")
@@ -97,8 +121,11 @@ func vhCabScenario(prop string) {
 	}
 	vhReach("signed")
 	shift := 0
-	if !signed {
-		shift = 24
+	switch kind {
+	case 0:
+		shift = 24 // reserve + signature header inserted
+	case 2:
+		shift = -pad // excess reserved space removed
 	}
 	switch prop {
 	case "C01":
